@@ -521,6 +521,9 @@ func repoGarbageCollect(repo Repo, conf config.Config, index types.Index, locked
 			man := types.Index{}
 			err = json.NewDecoder(br).Decode(&man)
 			errClose := br.Close()
+			if err != nil && gcReadFailed(err) {
+				return index, false, fmt.Errorf("garbage collection aborted: %w", err)
+			}
 			if err != nil || errClose != nil {
 				continue
 			}
@@ -532,6 +535,9 @@ func repoGarbageCollect(repo Repo, conf config.Config, index types.Index, locked
 			man := types.Manifest{}
 			err = json.NewDecoder(br).Decode(&man)
 			errClose := br.Close()
+			if err != nil && gcReadFailed(err) {
+				return index, false, fmt.Errorf("garbage collection aborted: %w", err)
+			}
 			if err != nil || errClose != nil {
 				continue
 			}
